@@ -1,5 +1,5 @@
 """C05 — result models are as strict as the schema."""
-from . import k3_results
+from . import k1_results, k3_results
 
 
 def run(ctx):
@@ -9,4 +9,5 @@ def run(ctx):
                 "conversion table for its type, __typename replaced by a non-possible type) must be rejected by the "
                 "generated client method; non-trivial = distinct (operation, response) whose corruptions were tried")
     run.assumptions += ["graphql-core 3.2.12 execute_sync is the reference executor", "pydantic 2.13 lax-mode table (DESIGN §5)"]
+    k1_results.run_k1(ctx)
     k3_results.run_results(ctx, "C05")
